@@ -212,3 +212,122 @@ impl Mux {
         m.run(ctx, transport).await.map_err(|e| format!("{e:?}"))
     }
 }
+
+// ---------------------------------------------------------------------------------------------
+// RPC service (per-connection, per-RPC rate and in-flight limits)
+
+/// One observation of a recording RPC handler.
+#[derive(Clone, Debug)]
+pub struct RpcEvent {
+    pub rpc: &'static str,
+    pub call: u64,
+    /// "start" | "end"
+    pub kind: &'static str,
+    pub at: zksync_concurrency::time::Instant,
+}
+
+pub type RpcLog = Arc<std::sync::Mutex<Vec<RpcEvent>>>;
+
+/// Handler which only records when it was invoked / returned (in `ctx` time) and holds every call for `hold`.
+struct RpcRecorder {
+    rpc: &'static str,
+    log: RpcLog,
+    hold: zksync_concurrency::time::Duration,
+    next: std::sync::atomic::AtomicU64,
+}
+
+impl RpcRecorder {
+    async fn record(&self, ctx: &ctx::Ctx) {
+        let call = self.next.fetch_add(1, std::sync::atomic::Ordering::SeqCst);
+        self.log.lock().unwrap().push(RpcEvent { rpc: self.rpc, call, kind: "start", at: ctx.now() });
+        let _ = ctx.sleep(self.hold).await;
+        self.log.lock().unwrap().push(RpcEvent { rpc: self.rpc, call, kind: "end", at: ctx.now() });
+    }
+}
+
+#[async_trait::async_trait]
+impl crate::rpc::Handler<crate::rpc::ping::Rpc> for &RpcRecorder {
+    fn max_req_size(&self) -> usize {
+        zksync_protobuf::kB
+    }
+    async fn handle(&self, ctx: &ctx::Ctx, req: crate::rpc::ping::Req) -> anyhow::Result<crate::rpc::ping::Resp> {
+        self.record(ctx).await;
+        Ok(crate::rpc::ping::Resp(req.0))
+    }
+}
+
+#[async_trait::async_trait]
+impl crate::rpc::Handler<crate::rpc::consensus::Rpc> for &RpcRecorder {
+    fn max_req_size(&self) -> usize {
+        zksync_protobuf::MB
+    }
+    async fn handle(&self, ctx: &ctx::Ctx, _req: crate::rpc::consensus::Req) -> anyhow::Result<crate::rpc::consensus::Resp> {
+        self.record(ctx).await;
+        Ok(crate::rpc::consensus::Resp)
+    }
+}
+
+/// In-flight limits of the two RPCs served by `rpc_serve`: (ping, consensus).
+pub fn rpc_inflight() -> (u32, u32) {
+    use crate::rpc::Rpc as _;
+    (crate::rpc::ping::Rpc::INFLIGHT, crate::rpc::consensus::Rpc::INFLIGHT)
+}
+
+/// Runs the real `rpc::Service` over `transport` with a ping server and a consensus server, both limited by `rate`,
+/// whose handlers only record (see `RpcRecorder`).
+pub async fn rpc_serve<S: io::AsyncRead + io::AsyncWrite + Send>(
+    ctx: &ctx::Ctx,
+    transport: S,
+    rate: limiter::Rate,
+    hold: zksync_concurrency::time::Duration,
+    log: RpcLog,
+) -> Result<(), String> {
+    let ping = RpcRecorder { rpc: "ping", log: log.clone(), hold, next: 0.into() };
+    let cons = RpcRecorder { rpc: "consensus", log, hold, next: 0.into() };
+    crate::rpc::Service::new()
+        .add_server::<crate::rpc::ping::Rpc>(ctx, &ping, rate)
+        .add_server::<crate::rpc::consensus::Rpc>(ctx, &cons, rate)
+        .run(ctx, transport)
+        .await
+        .map_err(|e| format!("{e:?}"))
+}
+
+/// Real RPC clients (infinite client-side rate) calling as fast as the protocol lets them: `tasks` concurrent callers
+/// per RPC, each issuing calls until `ctx` is cancelled. Returns the number of completed (ping, consensus) calls.
+pub async fn rpc_hammer<S: io::AsyncRead + io::AsyncWrite + Send>(
+    ctx: &ctx::Ctx,
+    transport: S,
+    tasks: usize,
+    msg: zksync_consensus_roles::validator::Signed<zksync_consensus_roles::validator::ConsensusMsg>,
+) -> (u64, u64) {
+    use std::sync::atomic::{AtomicU64, Ordering};
+    use zksync_concurrency::scope;
+    let ping = crate::rpc::Client::<crate::rpc::ping::Rpc>::new(ctx, limiter::Rate::INF);
+    let cons = crate::rpc::Client::<crate::rpc::consensus::Rpc>::new(ctx, limiter::Rate::INF);
+    let (np, nc) = (AtomicU64::new(0), AtomicU64::new(0));
+    let _: Result<(), ctx::Error> = scope::run!(ctx, |ctx, s| async {
+        let service = crate::rpc::Service::new().add_client(&ping).add_client(&cons);
+        s.spawn_bg(async {
+            let _ = service.run(ctx, transport).await;
+            Ok(())
+        });
+        for _ in 0..tasks {
+            s.spawn(async {
+                while ping.call(ctx, &crate::rpc::ping::Req([7; 32]), zksync_protobuf::kB).await.is_ok() {
+                    np.fetch_add(1, Ordering::SeqCst);
+                }
+                Ok(())
+            });
+            s.spawn(async {
+                let req = crate::rpc::consensus::Req(msg.clone());
+                while cons.call(ctx, &req, zksync_protobuf::kB).await.is_ok() {
+                    nc.fetch_add(1, Ordering::SeqCst);
+                }
+                Ok(())
+            });
+        }
+        Ok(())
+    })
+    .await;
+    (np.into_inner(), nc.into_inner())
+}
